@@ -125,6 +125,21 @@ def _wild_conds(conds):
     return out
 
 
+def _merge_same_value(sites):
+    """Return sites with the same returned value taken together (their conditions united): `if w || eq {High} else {Low}` written
+    as one return reached two ways, or as `let q = if !w && !eq {Low} else {High}; Some(q.score())` split per path, give the same
+    entries."""
+    out = []
+    for s in sites:
+        for k, o in enumerate(out):
+            if o[2] == s[2]:
+                out[k] = (o[0], o[1], o[2], list(o[3]) + [c for c in s[3] if c not in o[3]]) + tuple(o[4:])
+                break
+        else:
+            out.append(tuple(s))
+    return out
+
+
 def rule_components(ctx, tabs):
     P = ctx.program
     n = 0
@@ -143,7 +158,7 @@ def rule_components(ctx, tabs):
             for b in bodies:
                 n += 1
                 inst = "%s:%s" % (famname, name)
-                sites = TB.return_sites(b, P, resolve=True)
+                sites = _merge_same_value(TB.return_sites(b, P, resolve=True))
                 # functions that only forward (distance_horder -> distance_header)
                 if not sites:
                     fw = [t for _, t in b.calls() if t["dest"]["l"] == 0]
